@@ -30,6 +30,10 @@ const (
 // engineCmp is how the engine's editor compares key parts (raw values, byte prefixes).
 var engineCmp = g8alib.KeyCmp{IgnoreCollation: true, PrefixInBytes: true}
 
+// deadRowsSkipped: the engine's unique-key lookup no longer consults rows deleted earlier in the
+// statement (set from the probe of that known defect; selects the matching editor emulation).
+var deadRowsSkipped bool
+
 func hasFoldingKey(t *g8alib.Table) bool {
 	for _, k := range t.Keys {
 		if !k.Unique {
@@ -81,7 +85,7 @@ func classify(sc *g8alib.Schema, pre *g8alib.Table, st *g8alib.Stmt, exp *g8alib
 	// … or the engine did exactly what its row editor does when it compares key parts as raw values
 	// (pending-edit maps, primary key before unique keys, collation-aware "row changed" test)
 	if ci || px {
-		if o, rows, ok := pre.ApplyLikeAccumulator(st, g8alib.EmulOpts{Cmp: engineCmp}); ok && sameOutcome(st, o, rows, obs) {
+		if o, rows, ok := pre.ApplyLikeAccumulator(st, g8alib.EmulOpts{Cmp: engineCmp, DeadRowsSkipped: deadRowsSkipped}); ok && sameOutcome(st, o, rows, obs) {
 			switch {
 			case ci && px:
 				return sigCI + "+" + sigPrefix
@@ -96,12 +100,12 @@ func classify(sc *g8alib.Schema, pre *g8alib.Table, st *g8alib.Stmt, exp *g8alib
 	rawOut := raw.Apply(st, engineCmp)
 	shadow := exp.Shadowed || rawOut.Shadowed
 	if exp.ConcatCollide {
-		if o, rows, ok := pre.ApplyLikeAccumulator(st, g8alib.EmulOpts{Cmp: engineCmp, ConcatKeys: true}); ok && sameOutcome(st, o, rows, obs) {
+		if o, rows, ok := pre.ApplyLikeAccumulator(st, g8alib.EmulOpts{Cmp: engineCmp, ConcatKeys: true, DeadRowsSkipped: deadRowsSkipped}); ok && sameOutcome(st, o, rows, obs) {
 			return sigConcat
 		}
 	}
 	if shadow {
-		if o, rows, ok := pre.ApplyLikeAccumulator(st, g8alib.EmulOpts{Cmp: engineCmp}); ok && sameOutcome(st, o, rows, obs) {
+		if o, rows, ok := pre.ApplyLikeAccumulator(st, g8alib.EmulOpts{Cmp: engineCmp, DeadRowsSkipped: deadRowsSkipped}); ok && sameOutcome(st, o, rows, obs) {
 			switch {
 			case ci && !altModelAgrees(pre, st, engineCmp):
 				return sigShadow + "+" + sigCI
@@ -147,6 +151,7 @@ func main() {
 
 	// input classes of known findings via=domain stay excluded only while their witness still fails
 	excl := g8alib.ProbeKnown()
+	deadRowsSkipped = !excl.UniqueCheckDeadRow
 	r.Extra("excluded_input_classes_still_defective", fmt.Sprintf("%+v", excl))
 	r.Assume("excluded while their pinned witnesses fail (known findings via=domain, see findings/C13.txt, C14.txt): statements that process a row agreeing on a unique key with a row version deleted/updated earlier in the same statement; col <> fractional literal on an indexed DECIMAL column; out-of-range integer assignments")
 	r.Assume("affected/matched counts, ROW_COUNT() and the class of non-duplicate errors are not judged here (C13 does)")
